@@ -8,6 +8,22 @@ ROOT = os.path.dirname(os.path.dirname(os.path.abspath(__file__)))
 PY = "/venv/bin/python"
 
 CLAIMED = {
+    "C14": dict(
+        category="exploration",
+        text=("(a) 2-3 real threads under a seeded baton scheduler share string templates, lazily compiled file "
+              "templates, a template loader and module-loader-backed templates; every source line of chameleon's "
+              "shared-state modules and of the generated render functions, every lock operation, file-system call "
+              "and in-template probe is a pre-emption point; PCT places 1-3 switches (half of them inside "
+              "shared-state functions). Every call must equal its run-alone result on a fresh, separately compiled "
+              "object graph, caller arguments must be unchanged, no deadlock, no residue afterwards. (b) call "
+              "sequences on reused vs fresh instances, and the same sequence in fresh interpreters under other "
+              "PYTHONHASHSEED values (with allocator noise) and in reverse order must give identical output. "
+              "Schedules are sampled: evidence, not proof."),
+        design_ref="DESIGN.md 3.4",
+        note=("Pre-emption granularity is a source line. Files do not change during a run (that axis is C16). "
+              "Trusted: the run-alone execution of the same operation as the expected value."),
+        technique="deterministic simulation: baton-scheduled real threads with sys.monitoring line pre-emption and PCT; cross-process replay under different hash seeds",
+    ),
     "C15": dict(
         category="fault_enumeration",
         text=("Seeded deterministic simulation of 1-3 processes sharing one cache directory: "
@@ -45,7 +61,6 @@ PENDING = {
     "C04": "claimed by design (DESIGN 3.1) but its check is not built yet in this commit",
     "C12": "claimed by design (DESIGN 3.2) but its check is not built yet in this commit",
     "C13": "claimed by design (DESIGN 3.3) but its check is not built yet in this commit",
-    "C14": "claimed by design (DESIGN 3.4) but its check is not built yet in this commit",
 }
 
 NOT_APPLICABLE = {
